@@ -6,14 +6,19 @@
 //	add    <state> <bodyhex>          POST /api/servers with this body (application/json)
 //	add-ip <state> <iphex> <port>     POST /api/servers with {"ip":"<ip>","port":<port>}
 //	view   <state> <addrhex>          GET  /api/servers/<addr>
+//	list   <items> <gamevariant> <gamever> <gametype> <nopassworded> <nofull> <noempty>
+//	                                  GET  /api/servers?…; <items> = "-" | <state>@<age> joined by "|" (record.go);
+//	                                  each parameter "~" (absent) or the hex of its value ("-" = present and empty)
 //	html   <hostnamehex>              styles.ToHTML
 //	clean  <hostnamehex>              styles.Clean
 //	addr   <stringhex>                addr.NewFromString + addr.NewPublicAddr
 //
-// <state> = "absent" | "p:<a.b.c.d>:<port>:<statusword>:<queryport>:<hostnamehex>": a record planted through the
-// real servers repository before the request (no address validation: addr.NewForTesting).
+// <state> = "absent" | "p:<a.b.c.d>:<port>:<statusword>:<queryport>:<hostnamehex>" | "P:…" (extended form with
+// a full details value, see record.go): a record planted through the real servers repository before the request
+// (no address validation: addr.NewForTesting).
 //
-// Output of add / add-ip / view:  <http status> <hostname_html hex|~> <hostname_plain hex|~> <effect>
+// Output of add / add-ip / view / list:  <http status> <hostname_html hex|~> <hostname_plain hex|~> <effect> <body>
+// <body> = the whole response body as one canonical token (canon.go): every member, in document order.
 // <effect> = "none" when the canonical keyspace dump is unchanged, else items joined by "+":
 //
 //	new:<addr>,<queryport>,<status>   record created        upd:<addr>,<queryport>,<status>  record rewritten
@@ -25,7 +30,6 @@ package c17
 
 import (
 	"bytes"
-	"context"
 	"encoding/json"
 	"errors"
 	"fmt"
@@ -34,6 +38,7 @@ import (
 	"net"
 	"net/http"
 	"net/http/httptest"
+	"net/url"
 	"sort"
 	"strconv"
 	"strings"
@@ -42,8 +47,6 @@ import (
 
 	"github.com/sergeii/swat4master/internal/core/entities/addr"
 	ds "github.com/sergeii/swat4master/internal/core/entities/discovery/status"
-	"github.com/sergeii/swat4master/internal/core/entities/server"
-	"github.com/sergeii/swat4master/internal/core/repositories"
 	"github.com/sergeii/swat4master/pkg/swat/styles"
 	"github.com/sergeii/swat4master/verifharness/internal/core"
 	"github.com/sergeii/swat4master/verifharness/internal/world"
@@ -122,6 +125,11 @@ func exec1(op string, args []string) []string {
 		req.URL.Path = "/api/servers/" + string(core.MustUnHex(args[1]))
 		req.URL.RawPath = ""
 		return execHTTP(args[0], req)
+	case "list":
+		if len(args) != 7 {
+			return []string{"bad-op"}
+		}
+		return execList(args[0], args[1:])
 	}
 	return []string{"bad-op"}
 }
@@ -147,29 +155,6 @@ func execAddr(s string) []string {
 	return []string{"ok", pa.ToAddr().GetDottedIP(), strconv.Itoa(pa.ToAddr().Port)}
 }
 
-func plant(p *world.Proc, state string) error {
-	if state == "absent" {
-		return nil
-	}
-	f := strings.Split(state, ":")
-	if len(f) != 6 || f[0] != "p" {
-		return fmt.Errorf("bad state %q", state)
-	}
-	ip := net.ParseIP(f[1]).To4()
-	port, e1 := strconv.Atoi(f[2])
-	status, e2 := strconv.Atoi(f[3])
-	qport, e3 := strconv.Atoi(f[4])
-	host, e4 := core.UnHex(f[5])
-	if ip == nil || e1 != nil || e2 != nil || e3 != nil || e4 != nil {
-		return fmt.Errorf("bad state %q", state)
-	}
-	svr := server.Server{Addr: addr.NewForTesting(ip, port), QueryPort: qport, DiscoveryStatus: ds.DiscoveryStatus(status)}
-	svr.Info.Hostname = string(host)
-	svr.Details.Info.Hostname = string(host)
-	_, err := p.Servers.Add(context.Background(), svr, repositories.ServerOnConflictIgnore)
-	return err
-}
-
 func execHTTP(state string, req *http.Request) []string {
 	w, p := proc()
 	if err := plant(p, state); err != nil {
@@ -192,7 +177,33 @@ func execHTTP(state string, req *http.Request) []string {
 			plain = core.Hex([]byte(s))
 		}
 	}
-	return []string{strconv.Itoa(rec.Code), html, plain, effect(before, after)}
+	return []string{strconv.Itoa(rec.Code), html, plain, effect(before, after), canonBody(rec.Body.Bytes())}
+}
+
+// execList plants the records (refreshed <age> seconds ago) and asks for the listing
+func execList(items string, params []string) []string {
+	q := url.Values{}
+	for i, name := range []string{"gamevariant", "gamever", "gametype", "nopassworded", "nofull", "noempty"} {
+		if params[i] != "~" {
+			q.Set(name, string(core.MustUnHex(params[i])))
+		}
+	}
+	rawQuery := q.Encode()
+	w, p := proc()
+	if items != "-" {
+		for _, it := range strings.Split(items, "|") {
+			if err := plantListed(p, w, it); err != nil {
+				return []string{"bad-state:" + strings.ReplaceAll(err.Error(), " ", "_")}
+			}
+		}
+	}
+	before := w.Dump()
+	req := httptest.NewRequest(http.MethodGet, "/api/servers", nil)
+	req.URL.RawQuery = rawQuery
+	rec := httptest.NewRecorder()
+	p.Router.ServeHTTP(rec, req)
+	after := w.Dump()
+	return []string{strconv.Itoa(rec.Code), "~", "~", effect(before, after), sortTopArray(canonBody(rec.Body.Bytes()))}
 }
 
 // effect summarises the difference of two canonical dumps (see the package comment).
@@ -595,6 +606,8 @@ func gen(rng *rand.Rand, tier core.Tier, emit core.Emit) {
 			emit("add-ip", st, hx("1.1.1.1"), "10480")
 		}
 	}
+	// 4. full records: every member of the 200 bodies, the listing
+	genFull(rng, tier, emit)
 	if tier == core.Thorough {
 		// exhaustive to length 4 over the 12-symbol alphabet; shards split the space by first symbol
 		var rec func(prefix string, depth int)
